@@ -48,9 +48,28 @@ type LedgerLine struct {
 	Err      string `json:"err"`
 	Note     string `json:"note"`
 	Small    bool   `json:"small"` // every amount fits 31 bits: TLC recomputes the sums itself
+	// double-sign reports carried by the PREVIOUS block's certificate, handled at the start of this block: each must now be
+	// recorded in the (validator, height) index so that it can never be slashed again
+	DblSign []DblRec `json:"dblsign"`
+}
+
+// norm makes every list non-nil (the TLA+ JSON reader does not accept null)
+func (l LedgerLine) norm() LedgerLine {
+	if l.DblSign == nil {
+		l.DblSign = []DblRec{}
+	}
+	return l
+}
+
+type DblRec struct {
+	Name    string `json:"name"`
+	H       uint64 `json:"h"`
+	Indexed bool   `json:"indexed"`
+	Existed bool   `json:"existed"` // the validator existed when the report was handled
 }
 
 type ledgerSim struct {
+	pendingDbl []DblRec
 	hist  map[string]string // "chain/height" -> committee answered when that height was current
 	n     *node
 	run   int
@@ -120,7 +139,7 @@ func newLedgerSim(run int, out *json.Encoder, big64, empty bool) (*ledgerSim, er
 	}
 	s.finish(sc)
 	s.prev = sc
-	return s, out.Encode(LedgerLine{Kind: "genesis", Run: run, Scan: sc, Small: s.small})
+	return s, out.Encode(LedgerLine{Kind: "genesis", Run: run, Scan: sc, Small: s.small}.norm())
 }
 
 // history: remember the committee of the current height and re-query every past height (in a shuffled order so that
@@ -262,7 +281,7 @@ func (s *ledgerSim) mint(h uint64) uint64 {
 // block executes one BlockSpec on the real node and records the scan
 func (s *ledgerSim) block(b BlockSpec, note string) (ok bool) {
 	n := s.n
-	line := LedgerLine{Kind: "block", Run: s.run, Small: s.small, Note: note}
+	line := LedgerLine{Kind: "block", Run: s.run, Small: s.small, Note: note, DblSign: []DblRec{}}
 	for _, o := range b.Ops {
 		tx, err := s.txFor(o)
 		if err != nil {
@@ -278,7 +297,7 @@ func (s *ledgerSim) block(b BlockSpec, note string) (ok bool) {
 	if err != nil {
 		line.Kind, line.Err = "wedge", fmt.Sprintf("height %d: cannot produce a block: %v", h, err)
 		line.Scan = s.prev
-		_ = s.out.Encode(line)
+		_ = s.out.Encode(line.norm())
 		return false
 	}
 	blk := new(lib.Block)
@@ -306,7 +325,7 @@ func (s *ledgerSim) block(b BlockSpec, note string) (ok bool) {
 				}
 			}
 		}
-		_ = s.out.Encode(LedgerLine{Kind: "proposal", Run: s.run, Scan: ps, Small: s.small, Included: line.Included, Note: note})
+		_ = s.out.Encode(LedgerLine{Kind: "proposal", Run: s.run, Scan: ps, Small: s.small, Included: line.Included, Note: note}.norm())
 	}
 	// certificate results: reward recipients and double signers as the script says
 	if len(b.PayTo) > 0 {
@@ -352,17 +371,35 @@ func (s *ledgerSim) block(b BlockSpec, note string) (ok bool) {
 	if err != nil {
 		line.Kind, line.Err = "wedge", fmt.Sprintf("height %d: block does not commit: %v", h, err)
 		line.Scan = s.prev
-		_ = s.out.Encode(line)
+		_ = s.out.Encode(line.norm())
 		return false
 	}
 	sc, e := n.scan()
 	if e != nil {
 		line.Kind, line.Err, line.Scan = "wedge", "scan: "+e.Error(), s.prev
-		_ = s.out.Encode(line)
+		_ = s.out.Encode(line.norm())
 		return false
 	}
 	s.finish(sc)
 	line.Scan = sc
+	for _, d := range s.pendingDbl {
+		for i, k := range n.valKeys {
+			if addrName(n.names, k.PublicKey().Address().Bytes()) == d.Name {
+				ok, e := n.st.IsValidDoubleSigner(n.valKeys[i].PublicKey().Address().Bytes(), d.H)
+				d.Indexed = e == nil && !ok
+			}
+		}
+		line.DblSign = append(line.DblSign, d)
+	}
+	s.pendingDbl = nil
+	for _, i := range b.DblSign {
+		name := addrName(n.names, n.valKeys[i].PublicKey().Address().Bytes())
+		existed := false
+		for _, v := range sc.Vals {
+			existed = existed || v.Name == name
+		}
+		s.pendingDbl = append(s.pendingDbl, DblRec{Name: name, H: h - 1, Existed: existed})
+	}
 	line.Mint = s.mint(h)
 	line.PrevPool = s.prev.SumPool
 	// events of the committed block
@@ -380,7 +417,7 @@ func (s *ledgerSim) block(b BlockSpec, note string) (ok bool) {
 		line.Mint, line.Slashed, line.Rewarded, line.PrevPool = line.Mint>>40, line.Slashed>>40, line.Rewarded>>40, line.PrevPool>>40
 	}
 	s.prev = sc
-	_ = s.out.Encode(line)
+	_ = s.out.Encode(line.norm())
 	return true
 }
 
@@ -469,7 +506,7 @@ func ledgerRandom(seed int64, runs, blocks int, big64 bool, out *json.Encoder) e
 		if alive {
 			s.drain()
 		}
-		_ = out.Encode(LedgerLine{Kind: "end", Run: r, Scan: s.prev, Small: s.small})
+		_ = out.Encode(LedgerLine{Kind: "end", Run: r, Scan: s.prev, Small: s.small}.norm())
 		s.n.close()
 	}
 	return nil
@@ -496,7 +533,7 @@ func ledgerReplay(scripts []LedgerScript, out *json.Encoder) error {
 		if alive {
 			s.drain()
 		}
-		_ = out.Encode(LedgerLine{Kind: "end", Run: r, Scan: s.prev, Small: s.small, Note: sc.ID})
+		_ = out.Encode(LedgerLine{Kind: "end", Run: r, Scan: s.prev, Small: s.small, Note: sc.ID}.norm())
 		s.n.close()
 	}
 	return nil
